@@ -92,6 +92,44 @@ def _bbnoh():
                       source=BB + ':NohBlackBoxEos.__init__ (ideal_gas_eos)')
 
 
+# the three geometry wrappers (they take no keyword at all: positional EOS + a 3-entry dictionary; `symmetry` is set by the class)
+BB_WRAPPERS = {'InitBBNohPlanar': 'PlanarNohBlackBox', 'InitBBNohCyl': 'CylindricalNohBlackBox', 'InitBBNohSph': 'SphericalNohBlackBox'}
+# the four residual classes of solution_tools/residual_functions.py: constructor alone, initial conditions symbolic
+BB_RESIDUALS = {'InitResEnergy': 'energy_noh_residual', 'InitResSEnergy': 'simplified_energy_noh_residual',
+                'InitResPressure': 'pressure_noh_residual', 'InitResSPressure': 'simplified_pressure_noh_residual'}
+
+
+def _bb_wrapper(name, clsname):
+    @target(name, G, deriv=None)
+    def _b():
+        def run():
+            _, cls = load(BB + ':' + clsname)
+            _, eos = load(BBEOS + ':ideal_gas_eos')
+            cls(eos(1.4), {'density': S('ic_density'), 'velocity': S('ic_velocity'), 'pressure': S('ic_pressure')})
+            return {'accepted': 1}
+        return trace_func(name, run, [], None, modules=[BB, BBRES, BBEOS], source=BB + ':%s.__init__ (ideal_gas_eos)' % clsname)
+    return _b
+
+
+def _bb_residual(name, clsname):
+    @target(name, G, deriv=None)
+    def _b():
+        def run():
+            _, cls = load(BBRES + ':' + clsname)
+            _, eos = load(BBEOS + ':ideal_gas_eos')
+            cls({'density': S('ic_density'), 'velocity': S('ic_velocity'), 'pressure': S('ic_pressure'),
+                 'symmetry': S('ic_symmetry')}, eos(1.4))
+            return {'accepted': 1}
+        return trace_func(name, run, [], None, modules=[BBRES, BBEOS], source=BBRES + ':%s.__init__ (ideal_gas_eos)' % clsname)
+    return _b
+
+
+for _n, _c in BB_WRAPPERS.items():
+    _bb_wrapper(_n, _c)
+for _n, _c in BB_RESIDUALS.items():
+    _bb_residual(_n, _c)
+
+
 # ---- 1-D Riemann, ideal gas: the driver up to the grid ---------------------------------------------------------------
 RM = 'exactpack.solvers.riemann.riemann'
 UT = 'exactpack.solvers.riemann.utils'
@@ -119,4 +157,33 @@ def _riem_driver():
                       source=RM + ':RiemannIGEOS.driver (to the grid line; bisect atom px)')
 
 
-REST_MODELS = sorted(REST_INIT) + ['RiemDriverClass']
+# ---- enumerated string flags: the constructor with a value outside the documented options ----------------------------
+# 'problem': "Default is 'igeos'; 'JWL' is currently an option."  (both 1-D Riemann wrappers)
+REST_FLAGS = {'InitRiemIGEOSBogus': ('exactpack.solvers.riemann.ep_riemann:IGEOS_Solver', dict(problem='bogus')),
+              'InitRiemGenEOSBogus': ('exactpack.solvers.riemann.ep_riemann:GenEOS_Solver', dict(problem='bogus'))}
+for _name, (_cls, _conc) in REST_FLAGS.items():
+    def _mkf(name, cls, conc):
+        @target(name, G, deriv=None)
+        def _b():
+            return trace_init(name, cls, concrete=conc)
+    _mkf(_name, _cls, _conc)
+
+
+# ---- Kenamond 2 with lists of the wrong length (work package `burn` traced the right lengths: K2Init) ----------------
+def _k2_wrong(name, ndets, ntd):
+    from .t_burn import BURN_K2, BURN_INIT_SHIMS
+
+    @target(name, G, deriv=None)
+    def _b():
+        return trace_init(name, BURN_K2, structured=dict(dets=lambda: list(vec('a', ndets)), t_d=lambda: list(vec('td', ntd))),
+                          extra_shims=BURN_INIT_SHIMS)
+    return _b
+
+
+_k2_wrong('K2InitDets3', 3, 5)
+_k2_wrong('K2InitDets5', 5, 5)
+_k2_wrong('K2InitTd4', 4, 4)
+_k2_wrong('K2InitTd6', 4, 6)
+
+REST_MODELS = sorted(REST_INIT) + sorted(REST_FLAGS) + sorted(BB_WRAPPERS) + sorted(BB_RESIDUALS) + [
+    'RiemDriverClass', 'K2InitDets3', 'K2InitDets5', 'K2InitTd4', 'K2InitTd6']
